@@ -13,7 +13,7 @@ UNARY = ["sin", "cos", "tanh", "expm", "square", "neg", "softplus", "recip"]
 BINARY = ["add", "sub", "mul", "divs", "maxs"]
 ALIAS = ["reshape_rt", "transpose_rt", "getall", "ravel_rt", "ident_add0", "expand_squeeze", "swap_rt"]
 SPARSE = ["gather", "rev", "slice_pad", "take1"]
-REDUCE = ["sum_b", "mean_b", "cumsum", "dot_b"]
+REDUCE = ["sum_b", "mean_b", "cumsum", "dot_b", "einsum3", "concat3", "stack_mean", "where2"]
 CONTROL = ["if_pos", "while_half", "rec_pow", "closure_scale", "if_truthy", "while_truthy", "nested_indep"]
 USER = ["log_scale", "log_mul", "log_tri"]
 
@@ -39,10 +39,12 @@ def gen_program(rng, n_ops=12, shape=(3,), p_dead=0.15, p_multi=0.2, families=("
 
         a = pick()
         p = {}
-        if name == "log_tri":
+        if name in ("log_tri", "einsum3", "concat3", "stack_mean"):
             b = a if rng.uniform() < p_multi else pick()
             c = b if rng.uniform() < p_multi else pick()
             ins = [a, b, c]
+        elif name == "where2":
+            ins = [a, pick()]
         elif name in BINARY or name in ("dot_b", "log_mul"):
             b = a if rng.uniform() < p_multi else pick()
             ins = [a, b]
@@ -151,6 +153,18 @@ def interpret_values(prog, x, xp, user=None, on_op=None, blog=None):
             r = a - xp.mean(a)
         elif name == "cumsum":
             r = xp.reshape(xp.cumsum(xp.ravel(a)), shape) * 0.3
+        elif name == "einsum3":
+            c_ = vals[ins[2]]
+            r = xp.reshape(xp.einsum("i,i,i->i", xp.ravel(a), xp.ravel(b), xp.ravel(c_)), shape) * 0.3 + a
+        elif name == "concat3":
+            c_ = vals[ins[2]]
+            cat = xp.concatenate([xp.ravel(a), xp.ravel(b) * 0.5, xp.ravel(c_) * 0.25])
+            r = xp.reshape(cat[:size] + cat[size : 2 * size] + cat[2 * size :], shape)
+        elif name == "stack_mean":
+            c_ = vals[ins[2]]
+            r = xp.mean(xp.stack([a, b, c_ * 2.0]), axis=0)
+        elif name == "where2":
+            r = xp.where(onp.arange(size).reshape(shape) % 2 == 0, a, b * 0.7)
         elif name == "dot_b":
             r = xp.dot(xp.ravel(a), xp.ravel(b)) * 0.1 + a
         elif name == "if_pos":
